@@ -145,6 +145,45 @@ YearClass(day) == IF day < 0 \/ day > MaxDay THEN "yout"
                   ELSE IF CivilFromDays(day).y < 1000 THEN "ylt1000" ELSE "y4"
 
 -----------------------------------------------------------------------------
+(* Declarative layer: a local zone with a daylight-saving rule (POSIX TZ "std off dst off,Mm.w.d/t,Mm.w.d/t") *)
+(* A zone is a record                                                                                          *)
+(*   [std, dst      offsets in minutes east of UTC (std = dst: a fixed zone, the rule is not looked at),       *)
+(*    sm, sw, sd, st   daylight time starts in month sm on the sw-th (5 = last) weekday sd (0 = Sunday) when   *)
+(*                     the STANDARD-time wall clock shows second st of the day,                                *)
+(*    em, ew, ed, et   and ends likewise when the DAYLIGHT-time wall clock shows second et]                    *)
+(* The offset of a DateTime<Local> / Zoned is a function of the instant and this rule - nothing else.         *)
+
+Weekday(n) == (n + 1) % 7                    \* 0 = Sunday; day 0 (0001-01-01) is a Monday
+
+\* the w-th weekday d of month m of year y (w = 5: the last one)
+RuleDay(y, m, w, d) ==
+    LET first == DaysFromCivil(y, m, 1)
+        fd    == first + ((d - Weekday(first) + 7) % 7)
+        cand  == fd + 7 * (w - 1)
+    IN IF cand > first + DaysInMonth(y, m) - 1 THEN cand - 7 ELSE cand
+
+Before(a, b) == a.day < b.day \/ (a.day = b.day /\ a.sod < b.sod)
+
+\* instant + k seconds, |k| <= 86400
+AddSec(i, k) == LET t == i.sod + k + 86400 IN [day |-> i.day + t \div 86400 - 1, sod |-> t % 86400]
+
+\* the instants (UTC) at which the zone's clocks change in year y
+ZoneStart(z, y) == Shift([day |-> RuleDay(y, z.sm, z.sw, z.sd), sod |-> z.st], -z.std)
+ZoneEnd(z, y)   == Shift([day |-> RuleDay(y, z.em, z.ew, z.ed), sod |-> z.et], -z.dst)
+
+\* rule months are 2..11, so both changes of a (UTC) year lie inside it; northern zones have start < end
+ZoneOffset(z, i) ==
+    IF z.std = z.dst THEN z.std
+    ELSE LET y == CivilFromDays(i.day).y
+             s == ZoneStart(z, y)
+             e == ZoneEnd(z, y)
+             inDst == IF Before(s, e) THEN ~Before(i, s) /\ Before(i, e) ELSE ~Before(i, s) \/ Before(i, e)
+         IN IF inDst THEN z.dst ELSE z.std
+
+\* what Object::from(<instant i as a date-time of local zone z>) is
+LocalString(z, i) == Fmt(i, ZoneOffset(z, i))
+
+-----------------------------------------------------------------------------
 (* Impl-shaped layer: src/datetime.rs *)
 
 Backends == {"chrono", "jiff", "time"}
@@ -222,6 +261,15 @@ ImplParse(b, s, dev_h41) ==
         rs == [k \in 1..Len(as) |-> RunFormat(as[k], t, b = "chrono")]
         oks == {k \in 1..Len(as) : rs[k].ok}
     IN IF oks = {} THEN ImplFail ELSE rs[CHOOSE k \in oks : \A j \in oks : k <= j]
+
+\* From<DateTime<Local>> for Object inside one process: `cache` is what earlier calls left behind (<<>> = nothing).
+\* As the code is there is no such state.  dev_cache transcribes the seeded design "the +HH'mm' suffix of the local
+\* zone is rendered by the first call and appended by every later one".
+ImplLocal(z, i, cache, dev_cache) ==
+    LET full == ImplFmt("chrono", i, ZoneOffset(z, i))        \* strftime + convert_utc_offset on this value
+    IN IF ~dev_cache THEN [out |-> full, cache |-> cache]
+       ELSE LET suf == IF cache = <<>> THEN SubSeq(full, 17, 23) ELSE cache
+            IN [out |-> SubSeq(full, 1, 16) \o suf, cache |-> suf]
 
 \* does an impl-shaped / observed result [ok, day, sod, off] agree with what the string denotes?
 \* (chrono's DateTime<Local> re-expresses the instant in the process zone: it keeps no offset)
